@@ -472,12 +472,15 @@ class Processes:
                         continue
 
                     raw = self._buffer.get(process, '') + buf
-                    if '\n' not in raw and len(raw) > self.MAX_COMMAND_SIZE:
+                    # the cap is on the line, wherever the reads cut it: the lines which are complete, and
+                    # what is buffered of the one which is not (it can only get longer)
+                    oversized = max(len(part) for part in raw.split('\n'))
+                    if oversized > self.MAX_COMMAND_SIZE:
                         log.error(
                             lazymsg(
                                 'api.command.oversized process={pr} size={size}',
                                 pr=process,
-                                size=len(raw),
+                                size=oversized,
                             ),
                             'processes',
                         )
@@ -603,9 +606,13 @@ class Processes:
 
             # Buffer incomplete lines
             raw = self._buffer.get(process_name, '') + buf
-            if '\n' not in raw and len(raw) > self.MAX_COMMAND_SIZE:
+            # The cap is on the line, wherever the reads cut it: the lines which are complete, and what is
+            # buffered of the one which is not (it can only get longer).  Looking only at a buffer without
+            # a newline let a line over the cap through when its end came with its newline.
+            oversized = max(len(part) for part in raw.split('\n'))
+            if oversized > self.MAX_COMMAND_SIZE:
                 log.error(
-                    lazymsg('api.command.oversized process={pn} size={size}', pn=process_name, size=len(raw)),
+                    lazymsg('api.command.oversized process={pn} size={size}', pn=process_name, size=oversized),
                     'processes',
                 )
                 self._buffer.pop(process_name, None)
